@@ -265,6 +265,49 @@ class Analysis:
         return live
 
     @staticmethod
+    def emptiness(e, fold=None):
+        """(subject text, truth-means-non-empty) when `e` tests whether a
+        sized value is empty: len(S) > 0, len(S) >= 1, len(S) != 0, len(S) == 0,
+        len(S) < 1, len(S), not len(S), S, not S. None otherwise (a bare name
+        is only taken as such a test by callers that know S is sized)."""
+        def num(x):
+            if isinstance(x, ast.Constant) and isinstance(x.value, (int, float)) \
+                    and not isinstance(x.value, bool):
+                return x.value
+            return fold(x) if fold is not None else None
+        if isinstance(e, ast.UnaryOp) and isinstance(e.op, ast.Not):
+            r = Analysis.emptiness(e.operand, fold)
+            return (r[0], not r[1]) if r else None
+        if isinstance(e, ast.Call) and norm(e.func) == 'len' and len(e.args) == 1:
+            return norm(e.args[0]), True
+        if isinstance(e, ast.Call) and norm(e.func) == 'bool' and len(e.args) == 1:
+            return Analysis.emptiness(e.args[0], fold)
+        if isinstance(e, ast.Compare) and len(e.ops) == 1:
+            l, r, op = e.left, e.comparators[0], e.ops[0]
+            flip = {ast.Gt: ast.Lt, ast.Lt: ast.Gt, ast.GtE: ast.LtE,
+                    ast.LtE: ast.GtE, ast.Eq: ast.Eq, ast.NotEq: ast.NotEq}
+            if not (isinstance(l, ast.Call) and norm(l.func) == 'len'):
+                if isinstance(r, ast.Call) and norm(r.func) == 'len' \
+                        and type(op) in flip:
+                    l, r, op = r, l, flip[type(op)]()
+                else:
+                    return None
+            if len(l.args) != 1:
+                return None
+            k = num(r)
+            s = norm(l.args[0])
+            if isinstance(op, ast.Gt) and k == 0 or isinstance(op, ast.GtE) and k == 1 \
+                    or isinstance(op, ast.NotEq) and k == 0:
+                return s, True
+            if isinstance(op, ast.Eq) and k == 0 or isinstance(op, ast.Lt) and k == 1 \
+                    or isinstance(op, ast.LtE) and k == 0:
+                return s, False
+            return None
+        if isinstance(e, (ast.Name, ast.Attribute)):
+            return norm(e), True
+        return None
+
+    @staticmethod
     def canonical_atom(e):
         """(text, polarity): a condition and its negation share the text.
         `x is not None` -> ('x is None', False); `b == a` -> ('a == b', True);
